@@ -47,11 +47,12 @@ template <class T> static inline T fresh_bits()
 }
 
 // ---- blank
+static size_t g_exact_len = 0;      // when non-zero: every array gets exactly g_exact_len - 1 elements (long payloads)
 template <class B> static typename B::owning_data_t blank(size_t bound)
 {
     constexpr kind k = kind_of<B>::value;
     using O = typename B::owning_data_t;
-    if constexpr (k == K_ARRAY) return O(vf_nondet_range(0, bound));
+    if constexpr (k == K_ARRAY) return O(g_exact_len ? g_exact_len - 1 : vf_nondet_range(0, bound));
     else if constexpr (k == K_CONSTANT || k == K_IDENTITY || k == K_PROBE) return O();
     else return O(typename B::configuration_t{}, blank<typename B::backend_t>(bound));
 }
